@@ -84,8 +84,20 @@ Definition holds (c : case) : bool :=
    1 = a fresh identifier carries the format the pre-d41562bb nim_args would have looked up under a foreign
        SPNameQualifier (C09-F1, fixed: seeing it again is a regression and is reported as a violation)
    2 = the identifier the pre-9a92c673 store search (no format in force) would have picked was used although its
-       format is not the one in force (C09-F2, fixed: likewise a regression) *)
+       format is not the one in force (C09-F2, fixed: likewise a regression)
+   3 = the issuing side is in order, the requester's own service provider reported no identity, and the chosen
+       consumer URL is published by a bare specification only while another specification names the binding the
+       Response travelled on (C09-F3, open: Config.endpoint hands out bare URLs only when nothing names the binding) *)
+Definition cls3 (c : case) : bool :=
+  match c_sp c, c_out c with
+  | Some (s, None), Issued r =>
+      spec_b (c_in c) (c_out c) && negb (e2e_b (c_in c) s r None)
+      && bare_shadowed_b (sp_acs s) (a_destination (arg (c_in c))) (sp_binding s)
+  | _, _ => false
+  end.
+
 Definition cls (c : case) : nat :=
+  if cls3 c then 3 else
   match c_out c with
   | Issued r =>
       if scope_b (c_in c) r && signed_as_demanded_b (c_in c) r && negb (nameid_ok_b (c_in c) r)
@@ -115,10 +127,24 @@ Definition clock_diagnosis (c : case) : option (reading * reading) :=
   | [] => None
   end.
 
+(* diagnosis: does what the real service provider reported equal the acceptance under another reading of the
+   endpoint specifications (and not the acceptance under the code's own)? *)
+Definition unpack_diagnosis (c : case) : option string :=
+  match c_sp c, c_out c with
+  | Some (s, so), Issued r =>
+      if spobs_eqb (sp_accepts s r) so then None
+      else if spobs_eqb (sp_accepts_with unpack_noslice s r) so then Some "as if (url, binding, index) triples were not unpacked"
+      else Some "none of the named readings"
+  | _, _ => None
+  end.
+
 Definition explain (c : case) :=
   (create (c_in c), zone (c_in c), clock_diagnosis c, match c_out c with Issued r => (scope_b (c_in c) r, nameid_ok_b (c_in c) r,
                                                     signed_as_demanded_b (c_in c) r) | Error e => (refusal_ok_b (c_in c) e, true, true) end,
-   match c_sp c, c_out c with Some (s, so), Issued r => Some (sp_accepts s r, e2e_b (c_in c) s r so) | _, _ => None end).
+   match c_sp c, c_out c with
+   | Some (s, so), Issued r => Some (sp_accepts s r, e2e_b (c_in c) s r so, sp_acs s, sp_binding s, unpack_diagnosis c)
+   | _, _ => None
+   end).
 
 (* constructors used by the harness *)
 Definition mk_cfg eid sr sa salg dalg pol dom : config :=
@@ -138,6 +164,6 @@ Definition mk_issued ri rirt rdest rii ii aud m rec irt nb nc ns nid src authn a
      i_audiences := aud; i_method := m; i_recipient := rec; i_irt := irt; i_not_before := nb; i_nooa_cond := nc;
      i_nooa_sc := ns; i_nameid := nid; i_nameid_src := src; i_authn := authn; i_attributes := av;
      s_response := sr; s_assertion := sa |}.
-Definition mk_sp me idp specs b wr wa wor atd au out n z : spside :=
-  {| sp_me := me; sp_idp := idp; sp_specs := specs; sp_binding := b; sp_wr := wr; sp_wa := wa; sp_wor := wor;
+Definition mk_sp me idp acs b wr wa wor atd au out n z : spside :=
+  {| sp_me := me; sp_idp := idp; sp_acs := acs; sp_binding := b; sp_wr := wr; sp_wa := wa; sp_wor := wor;
      sp_atd := atd; sp_allow_unsolicited := au; sp_outstanding := out; sp_now := n; sp_zone := z |}.
